@@ -1,13 +1,18 @@
 """C14 — concurrent JIT requests on a shared cache all get one complete, correct module.
 
 (a) Lean obligations: FfcxProofs/C14.lean (every reachable state of the cache protocol model).
-(b) Correspondence: the real `jit.compile_forms` under `harness/sched.py` vs the Lean model
+(b) Correspondence: the real `jit.compile_forms` - and, on a subset of the schedules,
+    `jit.compile_expressions`: same protocol, same model - under `harness/sched.py` vs the Lean model
     (`driver_jit`, command `cache`) on forced failure-free schedules: per-step observable trace,
     final directory, final state of every request, acquisition/compile counters.
 (c) Failing-input search on the real code with the property's own oracle (no model involved):
     nobody imports an incomplete module, exactly one request compiles, every request returns
     kernels that compute the known element matrix or raises TimeoutError after exactly `timeout`
-    polls, a late request reuses the cached module without compiling.
+    polls, all requests that return got the same module, a late request reuses the cached module
+    without compiling.
+    The oracle's counters are maintained by the scheduler's gates: for a schedule whose trace
+    correspondence is broken (a gate was bypassed, the code no longer has the modelled shape) its
+    complaints are reported as a broken correspondence (no failing input), not as a violation.
 """
 import random
 
@@ -15,9 +20,13 @@ from harness import lean, pipeline, sched
 
 THEOREMS = [
     "Ffcx.Jit.at_most_one_builder",
-    "Ffcx.Jit.marker_implies_complete",
-    "Ffcx.Jit.load_only_complete",
-    "Ffcx.Jit.reuse",
+    "Ffcx.Jit.exactly_one_builder",
+    "Ffcx.Jit.marker_implies_complete_partial",
+    "Ffcx.Jit.marker_implies_complete_counterexample",
+    "Ffcx.Jit.load_only_complete_partial",
+    "Ffcx.Jit.load_only_complete_counterexample",
+    "Ffcx.Jit.reuse_partial",
+    "Ffcx.Jit.reuse_counterexample",
     "Ffcx.Jit.timeout_bound",
     "Ffcx.Jit.no_failure_all_succeed",
 ]
@@ -28,8 +37,23 @@ LEAN_FILES = [
 ]
 
 
+# set by run_one while the oracle of a schedule runs: the differences between the real trace and the model's
+_ROUTE = {"diffs": None}
+
+
 def report(chk, key, what, payload):
-    """chk.violation once per canonical key (first failing input); occurrences are counted."""
+    """chk.violation once per canonical key (first failing input); occurrences are counted.
+    While the oracle judges a schedule whose trace correspondence is broken the complaint goes to
+    chk.disagree: the oracle reads counters kept by the gates, and a bypassed gate (a harmless
+    rewrite of jit.py) must not produce a concrete violation."""
+    if _ROUTE["diffs"]:
+        cnt = chk.notes.setdefault("oracle_complaints_on_broken_tie", {})
+        cnt[key] = cnt.get(key, 0) + 1
+        if cnt[key] == 1:
+            chk.disagree(f"property oracle complains ({key}) on a schedule whose trace correspondence with the model is broken",
+                         {"input": {k: payload.get(k) for k in ("api", "n", "timeout", "schedule")} if isinstance(payload, dict) else payload,
+                          "what": what, "diffs": _ROUTE["diffs"][:4]})
+        return False
     cnt = chk.notes.setdefault("violation_occurrences", {})
     cnt[key] = cnt.get(key, 0) + 1
     if cnt[key] == 1:
@@ -43,18 +67,22 @@ def sched_key(schedule):
 
 def oracle_failure_free(chk, sc, schedule, late_pids, prop="C14"):
     """The property's own oracle on one finished failure-free scenario (real side only)."""
-    payload = {"n": sc.n, "timeout": sc.timeout, "schedule": [list(x) for x in schedule], "trace": [list(t) for t in sc.trace]}
+    payload = {"api": sc.ref.api, "n": sc.n, "timeout": sc.timeout, "schedule": [list(x) for x in schedule], "trace": [list(t) for t in sc.trace]}
     bad = False
     for st in sc.procs:
         if any(x != "complete" for x in st.loaded):
             bad |= report(chk, "load:incomplete-module", f"request {st.pid} imported a {st.loaded} module", payload)
+    # all requests that returned got the same module: the same file, the same link generation
+    got = {st.pid: st.loaded_from[-1] for st in sc.procs if st.finished and st.outcome[0] == "done" and st.loaded_from}
+    if len(set(got.values())) > 1:
+        bad |= report(chk, "module:not-the-same", f"requests returned different modules {got}", payload)
     if sc.counters["compile"] > 1 or sc.counters["lock_ok"] > 1:
         bad |= report(chk, "compile:more-than-once", f"{sc.counters} in a failure-free run", payload)
     finished = [st for st in sc.procs if st.finished]
     for st in finished:
         o = st.outcome
         if o[0] == "done":
-            ok, val = sched.kernel_ok(o[2][0], o[3])
+            ok, val = sc.ref.check(o[2][0], o[3])
             if not ok:
                 bad |= report(chk, "kernel:wrong-result", f"request {st.pid} returned a kernel computing {val}", payload)
             if st.pid in late_pids and (o[1] or st.compiles):
@@ -75,24 +103,37 @@ def oracle_failure_free(chk, sc, schedule, late_pids, prop="C14"):
 
 
 def run_one(chk, P, d, root, idx, n, timeout, schedule, late_pids=(), kind="schedule", key=None, oracle=oracle_failure_free):
-    sc = P.scenario(n, timeout, root / f"s{idx:06d}")
+    api = P.ref.api
+    sc = P.scenario(n, timeout, root / f"{api[0]}{idx:06d}")
     try:
         sc.run(schedule)
         reply = d.ask(sched.schedule_sexp(n, timeout, schedule))
         diffs = sched.compare(sc, reply, schedule)
         # the oracle judges complete executions: whatever is still running is run to its end
         sc.drain()
-        oracle(chk, sc, schedule, set(late_pids))
+        _ROUTE["diffs"] = diffs or None
+        try:
+            oracle(chk, sc, schedule, set(late_pids))
+        finally:
+            _ROUTE["diffs"] = None
         trace = [list(t) for t in sc.trace]
     finally:
         sc.close()
     if diffs:
-        chk.disagree("cache protocol: forced schedule, model vs jit.py", {
-            "input": {"n": n, "timeout": timeout, "schedule": [list(x) for x in schedule]},
+        chk.disagree(f"cache protocol: forced schedule, model vs jit.{P.ref.entry}", {
+            "input": {"api": api, "n": n, "timeout": timeout, "schedule": [list(x) for x in schedule]},
             "diffs": diffs[:4], "impl_trace": trace, "model": reply[1][:40],
         })
-    chk.case(kind=kind, key=key, sample={"n": n, "timeout": timeout, "schedule": sched_key(schedule)} if idx % 97 == 0 else None)
+    if api != "forms":
+        kind, key = f"{kind}:{api}", key
+    chk.case(kind=kind, key=key, sample={"api": api, "n": n, "timeout": timeout, "schedule": sched_key(schedule)} if idx % 97 == 0 else None)
     return diffs
+
+
+def cannot_gate(chk, e):
+    """jit.py lost a module global the gates are installed into: the tie is broken, there is no failing input."""
+    chk.disagree(f"scheduler cannot gate jit.py: {e}", {"input": "ffcx/codegeneration/jit.py module globals",
+                                                        "model": list(sched.Patches.REQUIRED), "impl": str(e)})
 
 
 def completion(pids, rounds):
@@ -102,7 +143,7 @@ def completion(pids, rounds):
 def run(chk):
     chk.rule = (
         "a case is one forced schedule of the file-system/global-state steps of N real jit.compile_forms "
-        "calls on one cache directory; distinct = distinct schedule string; non-trivial = at least two "
+        "(kinds '...:expressions': jit.compile_expressions) calls on one cache directory; distinct = distinct schedule string; non-trivial = at least two "
         "requests take steps before the ready marker exists (a waiter is scheduled inside the build window)"
     )
     chk.trusted += [
@@ -130,51 +171,78 @@ def run(chk):
             chk.disagree("phase order of the real cffi build", {"input": "tiny form", "model": want, "impl": ref.real_stages})
         if not ref.kernel_ok[0]:
             report(chk, "kernel:wrong-result", f"sequential build returns {ref.kernel_ok[1]}", {"form": "P1 mass matrix, interval [0,2]"})
+        ref_e = sched.Reference(root, api="expressions")
+        chk.notes["reference_build_expressions_s"] = round(ref_e.build_s, 2)
+        if [(a, list(b)) for a, b in ref_e.real_stages] != want:
+            chk.disagree("phase order of the real cffi build (compile_expressions)", {"input": "tiny expression", "model": want, "impl": ref_e.real_stages})
+        if not ref_e.kernel_ok[0]:
+            report(chk, "kernel:wrong-result", f"sequential compile_expressions returns {ref_e.kernel_ok[1]}",
+                   {"api": "expressions", "expression": "P1 coefficient at 1/4, 3/4 (harness.sched.tiny_expression)"})
         idx = 0
         with lean.Driver("driver_jit") as d:
-            with sched.Patches(ref) as P:
-                # -- exhaustive: two requests, every interleaving up to the first marker, then completion
-                #    and a late third request
-                confs = [(2, 40)] + ([(1, 40), (3, 40)] if thorough else [])
-                for timeout, depth in confs:
-                    rep = d.ask(f"(schedules 3 {timeout} {depth} (pids 0 1))")
-                    assert rep[0] == "ok", rep
-                    prefixes = [[int(x) for x in s[1:]] for s in rep[1:]]
-                    chk.notes[f"exhaustive_2proc_timeout{timeout}"] = len(prefixes)
-                    for pre in prefixes:
-                        schedule = [(p, "none") for p in pre] + completion([0, 1], 5) + completion([2], 5)
-                        nontrivial = len(set(pre)) > 1
-                        run_one(chk, P, d, root, idx, 3, timeout, schedule, late_pids=[2], kind="exhaustive2",
-                                key=("t%d:" % timeout + "".join(map(str, pre))) if nontrivial else None)
+            try:
+                with sched.Patches(ref) as P:
+                    # -- exhaustive: two requests, every interleaving up to the first marker, then completion
+                    #    and a late third request
+                    confs = [(2, 40)] + ([(1, 40), (3, 40)] if thorough else [])
+                    all_prefixes = {}
+                    for timeout, depth in confs:
+                        rep = d.ask(f"(schedules 3 {timeout} {depth} (pids 0 1))")
+                        assert rep[0] == "ok", rep
+                        prefixes = [[int(x) for x in s[1:]] for s in rep[1:]]
+                        all_prefixes[timeout] = prefixes
+                        chk.notes[f"exhaustive_2proc_timeout{timeout}"] = len(prefixes)
+                        for pre in prefixes:
+                            schedule = [(p, "none") for p in pre] + completion([0, 1], 5) + completion([2], 5)
+                            nontrivial = len(set(pre)) > 1
+                            run_one(chk, P, d, root, idx, 3, timeout, schedule, late_pids=[2], kind="exhaustive2",
+                                    key=("t%d:" % timeout + "".join(map(str, pre))) if nontrivial else None)
+                            idx += 1
+                    # -- seeded random schedules, 3 (and 4) requests
+                    nrand = 2500 if thorough else 300
+                    randoms = []
+                    for k in range(nrand):
+                        n = rng.choice([3, 3, 4] if thorough else [3])
+                        timeout = rng.choice([1, 2, 3, 5] if thorough else [2, 3])
+                        L = rng.randint(6, 14 + 6 * n)
+                        # biased pid choice so that long builder runs and long waiter runs both occur
+                        w = [rng.random() + 0.15 for _ in range(n)]
+                        pre = rng.choices(range(n), weights=w, k=L)
+                        schedule = [(p, "none") for p in pre]
+                        tail = rng.random() < 0.7
+                        if tail:
+                            schedule += completion(range(n), timeout + 15)
+                        key = f"n{n}t{timeout}:" + "".join(map(str, pre)) if len(set(pre[:9])) > 1 else None
+                        randoms.append((n, timeout, schedule, key))
+                        run_one(chk, P, d, root, idx, n, timeout, schedule, kind="random", key=key)
                         idx += 1
-                # -- seeded random schedules, 3 (and 4) requests
-                nrand = 2500 if thorough else 300
-                for k in range(nrand):
-                    n = rng.choice([3, 3, 4] if thorough else [3])
-                    timeout = rng.choice([1, 2, 3, 5] if thorough else [2, 3])
-                    L = rng.randint(6, 14 + 6 * n)
-                    # biased pid choice so that long builder runs and long waiter runs both occur
-                    w = [rng.random() + 0.15 for _ in range(n)]
-                    pre = rng.choices(range(n), weights=w, k=L)
-                    schedule = [(p, "none") for p in pre]
-                    tail = rng.random() < 0.7
-                    if tail:
-                        schedule += completion(range(n), timeout + 14)
-                    run_one(chk, P, d, root, idx, n, timeout, schedule, kind="random",
-                            key=f"n{n}t{timeout}:" + "".join(map(str, pre)) if len(set(pre[:9])) > 1 else None)
-                    idx += 1
-                chk.notes["real_dlopens"] = P.real_loads
+                    chk.notes["real_dlopens"] = P.real_loads
+                # -- compile_expressions: same protocol, same model; every 6th exhaustive prefix, every 8th random schedule
+                with sched.Patches(ref_e) as P:
+                    step_e, step_r = (3, 4) if thorough else (6, 8)
+                    for timeout, prefixes in all_prefixes.items():
+                        for pre in prefixes[::step_e]:
+                            schedule = [(p, "none") for p in pre] + completion([0, 1], 5) + completion([2], 5)
+                            run_one(chk, P, d, root, idx, 3, timeout, schedule, late_pids=[2], kind="exhaustive2",
+                                    key=("t%d:" % timeout + "".join(map(str, pre))) if len(set(pre)) > 1 else None)
+                            idx += 1
+                    for n, timeout, schedule, key in randoms[::step_r]:
+                        run_one(chk, P, d, root, idx, n, timeout, schedule, kind="random", key=key)
+                        idx += 1
+            except sched.CannotGate as e:
+                cannot_gate(chk, e)
             if not sched.patches_intact():
                 raise RuntimeError("sched.Patches left jit.py patched")
         if sched.leftover_threads():
             raise RuntimeError(f"leftover worker threads {sched.leftover_threads()}")
         # -- end to end: real processes, real compiler, no patches
         rounds = 4 if thorough else 1
-        for r in range(rounds):
+        for r in range(rounds + 1):
             n = 3 + (r % 2)
+            api = "expressions" if r == rounds else "forms"  # the last round: compile_expressions
             cdir = root / f"real{r}"
-            res = sched.real_processes(cdir, root / f"barrier{r}", n=n, timeout=120)
-            payload = {"mode": "real processes", "n": n, "results": res}
+            res = sched.real_processes(cdir, root / f"barrier{r}", n=n, timeout=120, api=api)
+            payload = {"mode": "real processes", "api": api, "n": n, "results": res}
             built = [x for x in res if x.get("built")]
             if any("exc" in x for x in res):
                 report(chk, "real:request-raised", f"a request raised: {[x for x in res if 'exc' in x][:2]}", payload)
@@ -182,11 +250,11 @@ def run(chk):
                 report(chk, "compile:not-exactly-one", f"{len(built)} of {n} real processes compiled", payload)
             elif not all(x.get("kernel_ok") for x in res):
                 report(chk, "kernel:wrong-result", "a real process got a wrong kernel", payload)
-            fs, extra = ref.abstract_fs(cdir)
+            fs, extra = (ref if api == "forms" else ref_e).abstract_fs(cdir)
             # (the `.so` of another directory embeds other paths: only its presence is compared here)
             good = fs["lock"] == "source" and fs["obj"] and fs["marker"] and not fs["failed"] and fs["so"] != "absent"
             if not good or extra:
                 chk.disagree("final directory of a real concurrent build", {"input": payload, "impl": [fs, extra], "model": "source/so/obj/marker"})
-            chk.case(kind="real-processes", key=f"n{n}", sample=payload if r == 0 else None)
+            chk.case(kind="real-processes", key=f"{api}:n{n}", sample=payload if r == 0 else None)
     if thorough:
         chk.leanchecker(["FfcxProofs.C14"])
